@@ -284,9 +284,19 @@ def shapeOf (e : Evt) : Shape :=
     * `Channel::push` / `len`                       /repo/emitter/otlp/src/client.rs:707-751
     * `OtlpTransport::send` / `send_batch`          client.rs:552-623   (after `fix:` removing the second `pop`)
     * `HttpConnection::send`, `poison`/`unpoison`   client/http.rs:331-387
-    * response interpretation                       client.rs:422-441 (HTTP), 492-534 (gRPC)
+    * response interpretation                       client.rs:422-441 (HTTP), 492-534 (gRPC; after `fix:` for
+                                                    non-2xx and Trailers-Only error responses)
     * the receiver's retry loop                     /repo/batcher/src/lib.rs:405-441, 629-646 (`Retry::next`)
-  One instance (`Net`) per signal: each signal owns its channel, transport and connection (client.rs:211-294).
+  One instance (`Net`) per signal: each signal owns its channel, transport and connection (client.rs:211-294);
+  the worker awaits every signal's receiver (client.rs:290-293 after `fix:` replacing `into_future()`), so a
+  batch queued on one signal is processed whatever the other signals do — also after the emitter was dropped.
+
+  Pre-fix behaviour, for the record (reproducers in harness/corpus/c12.txt):
+    D6  `send` popped twice per acknowledged request ⇒ of n requests only ⌈n/2⌉ were transmitted, flush = true;
+    G1  gRPC: HTTP status ignored and `grpc-status` read from trailers only ⇒ `(status 503)` and a Trailers-Only
+        `grpc-status: 14` counted as success, the batch was dropped without retry;
+    F3  the worker ended with the first receiver that finished ⇒ dropping the emitter while one signal was idle
+        abandoned the other signals' queued batches.
 -/
 
 /-- An encoded event: the id the harness gave it and `event.payload.len()`. -/
